@@ -249,8 +249,14 @@ def run_trace_shards(ctx, module, shard_files, metabase, env_extra=None, paralle
 def run_harness(ctx, args, timeout=3600):
     env = dict(os.environ)
     env['RUST_BACKTRACE'] = '0'
+    env['VERIF_MUXIDE_BIN'] = os.path.join(ctx.harness_dir, 'target', 'repo', 'debug', 'muxide')
+    env['VERIF_WORKDIR'] = ctx.work
     p = subprocess.run([ctx.harness_bin] + args, stdout=subprocess.PIPE, stderr=subprocess.PIPE, text=True,
                        env=env, timeout=timeout)
+    if p.returncode == 3:
+        # the watchdog saw a call that did not return: reported as data (C12), not as a tool error
+        last = p.stdout.strip().splitlines()[-1]
+        return json.loads(last)
     if p.returncode != 0:
         raise ToolError('harness %s failed (rc=%d): %s' % (args[:1], p.returncode, (p.stderr or p.stdout)[-2000:]))
     last = p.stdout.strip().splitlines()[-1] if p.stdout.strip() else '{}'
@@ -344,6 +350,9 @@ def check_property(ctx, pid, replay_file=None):
     except ToolError as e:
         log('TOOL-ERROR', str(e))
         return 2
+    if spec.get('pre'):
+        extra = spec['pre'](ctx)
+        results.append(('pre', {'sigs': extra, 'instances': 1, 'events': 0, 'samples': [], 'nontrivial': {}}))
     errors = [e for _, r in results for e in r.get('errors', [])]
     if errors:
         for e in errors[:5]:
